@@ -127,4 +127,24 @@ theorem decode_pic_short_at_start (s : State) (hr : s.running = 0) (hstd : s.opt
     | panic m => rfl
     | fuel => rfl
 
+/-- a standard-mode picture (PTYPE or PLUSPTYPE header) begins with the 22-bit picture start code: start code, group number 0 -/
+theorem std_bits_start (s' : State) (q : Pic) (hq : ∀ x, q ≠ .sor x) (rest : Bits) :
+    ∃ y, q.bits s' ++ rest = startCode ++ (natBits 5 0 ++ y) := by
+  cases q with
+  | sor x => exact absurd rfl (hq x)
+  | base x => unfold Pic.bits BPic.bits encodeBaseHdr; simp only [List.append_assoc]; exact ⟨_, rfl⟩
+  | plus x => unfold Pic.bits PPic.bits encodePlusHdr; simp only [List.append_assoc]; exact ⟨_, rfl⟩
+
+/-- **A short picture followed by the next picture of the stream**: as `decode_pic_short_at_start`, with the tail being fewer than
+eight zero bits and the next standard-mode picture `q` (written for any decoder state `s'`) and anything behind it. -/
+theorem decode_pic_short_then_next (s : State) (hr : s.running = 0) (hstd : s.opts.sorenson = false) (p : Pic) (w h : Nat)
+    (hv : p.Valid s w h) (n k : Nat) (hk : k ≤ 7) (s' : State) (q : Pic) (hq : ∀ x, q ≠ .sor x) (rest : Bits) (pos : Nat)
+    (hwin : k ≤ realignmentBits ⟨[], pos + ((cut n p).bits s).length⟩ + 1) :
+    decodeNextPicture s ⟨(cut n p).bits s ++ (zeros k ++ (q.bits s' ++ rest)), pos⟩ =
+      semCore s (p.picture s) (p.mbs.take n) >>= fun r =>
+        .ok (commitPic s r.1 r.2, ⟨zeros k ++ (q.bits s' ++ rest), pos + ((cut n p).bits s).length⟩) := by
+  obtain ⟨y, hy⟩ := std_bits_start s' q hq rest
+  rw [hy]
+  exact decode_pic_short_at_start s hr hstd p w h hv n k hk y pos hwin
+
 end H263V.Lemmas.ShortAtStart
